@@ -24,8 +24,8 @@ package ipk
 //@     invariant [C07 C11 C12] plan-still-fresh: nfpm.SpecPlanOK(info.Contents, !old(info.MTime.IsZero()))
 //
 //@ inline func conffiles(info *nfpm.Info) (result []byte)
-//@   loop 0
-//@     invariant true
+//@   loop 0 (confs []string)
+//@     invariant [C11 C12] accumulator-fresh: confs == nil || fresh(confs)
 //
 //@ inline func stripDisallowedFields(info *nfpm.Info)
 //@   loop 0
